@@ -21,10 +21,39 @@ Definition fr_sw (ev : Denote.env) (e : expr) : nat :=
   match Denote.lookup ev (Denote.pre "switch:" (e_val e) ++ bs "@" ++ dec (e_fi e)) with Some (VIdx i) => i | _ => 5000 end.
 Definition fr_class (ev : Denote.env) (e : expr) : bytes :=
   match Denote.lookup ev (Denote.pre "class:" (e_val e)) with Some (VStr s) => s | _ => bs "?unknown-class?" end.
-Definition fr_callee (e : expr) : bytes := callee_name (e_val e).
+Definition fr_look (ev : Denote.env) (p : string) (e : expr) : option value := Denote.lookup ev (Denote.pre p (e_val e)).
+Definition fr_url (ev : Denote.env) (e : expr) : bytes :=
+  match Denote.lookup ev (e_val e) with Some (VStr s) => s | _ => bs "?unknown-url?" end.
+Definition fr_style (ev : Denote.env) (e : expr) : option bytes :=
+  match fr_look ev "style:" e with Some (VStr s) => Some s | Some VErr => None | _ => Some (bs "?unknown-style?") end.
+Definition fr_script_call (ev : Denote.env) (e : expr) : bytes :=
+  match fr_look ev "script-call:" e with Some (VStr s) => s | _ => bs "?unknown-script?" end.
+Definition fr_spread (ev : Denote.env) (e : expr) : bytes :=
+  match fr_look ev "spread:" e with Some (VStr s) => s | _ => bs "?unknown-spread?" end.
+Definition fr_js (ev : Denote.env) (inside : bool) (e : expr) : option bytes :=
+  match fr_look ev (if inside then "js-in:" else "js-out:") e with Some (VStr s) => Some s | Some VErr => None | _ => Some (bs "?unknown-js?") end.
+Definition fr_comp (e : expr) : ckind :=
+  match Denote.comp_of (e_val e) with
+  | CTempl n => KTempl n
+  | CWrap o c => KWrap o c
+  | CIgnore => KOpaque (bs "(i)")
+  | CRaw s => KOpaque s
+  | CNop => KNop
+  | _ => KUnknown end.
+Definition fr_known (names : list bytes) (x : bytes) : bool :=
+  match Denote.comp_of x with
+  | CTempl n => existsb (Ast.beq n) names
+  | CWrap _ _ | CIgnore | CRaw _ | CNop => true
+  | _ => false end.
 Definition fr_call_env (ev : Denote.env) (e : expr) : Denote.env := Denote.restrict ev.
+(* definitions written by RenderCSSItems / RenderScriptItems: the probe vocabulary uses plain class items and scripts whose
+   Function is empty, for which the runtime writes nothing (what it writes otherwise is C12's subject) *)
+Definition fr_orc : oracles Denote.env :=
+  Oracles Denote.env Gen.hesc fr_str fr_bool fr_for fr_sw fr_class (fun _ _ => []) fr_url fr_style fr_script_call (fun _ _ => [])
+          fr_spread fr_js fr_comp fr_call_env.
 Definition show_kind (k : evk) : bytes :=
-  match k with KStr => bs "str" | KBool => bs "bool" | KFor => bs "for" | KSwitch => bs "switch" | KCall => bs "call" | KGo => bs "go" | KClass => bs "class" end.
+  match k with KStr => bs "str" | KBool => bs "bool" | KFor => bs "for" | KSwitch => bs "switch" | KCall => bs "call" | KGo => bs "go" | KClass => bs "class"
+             | KUrl => bs "url" | KStyle => bs "style" | KScript => bs "script" | KSpread => bs "spread" | KJs => bs "js" end.
 Definition show_trace (t : list event) : bytes :=
   flat_map (fun ke => let '(k, e) := ke in show_kind k ++ bs " " ++ dec (e_fi e) ++ bs " " ++ e_val e ++ [x0a]) t.
 Definition show_res (r : res) : bytes :=
@@ -33,7 +62,7 @@ Definition show_res (r : res) : bytes :=
   | None => bs "OK:" ++ o
   | Some (l, c) => bs "ERR:" ++ dec l ++ bs ":" ++ dec c ++ bs ":" ++ o end.
 Definition frag_run (denot : bool) (fl : file) (name : bytes) (ev : Denote.env) : list bytes :=
-  match to_frag_file fl with
+  match to_frag_file fr_known fl with
   | None => [bs "not-fragment"]
   | Some l =>
       let tbl := frag_table l in
@@ -41,9 +70,8 @@ Definition frag_run (denot : bool) (fl : file) (name : bytes) (ev : Denote.env) 
       | None => [bs "no-template"]
       | Some body =>
           let r := if denot
-                   then denote_f Denote.env Gen.hesc fr_str fr_bool fr_for fr_sw fr_class fr_callee fr_call_env true tbl 300 ev body None
-                   else exec_f Denote.env Gen.hesc fr_str fr_bool fr_for fr_sw fr_class fr_callee fr_call_env true
-                          (compile Gen.hesc tbl) 300 ev (coalesce (gens Gen.hesc body None)) in
+                   then denote_f fr_orc true tbl 300 ev None body None
+                   else exec_f fr_orc true (compile fr_orc tbl) 300 ev None (coalesce (gens fr_orc body None)) in
           [bs "ok"; show_res r; show_trace (trace_of r); b2 (tbl_hoist_free tbl)]
       end
   end.
@@ -59,10 +87,11 @@ Definition dispatch (f : bytes) (a : list bytes) : list bytes :=
                 | None => [bs "decode-ast"] end
     | None => [bs "decode-sexp"] end
   else if isf f "frag_exec" || isf f "frag_denote" then
-    (* args: AST wire, template name, environment wire.  reply: ok, OK:<bytes> | ERR:<line>:<col>:<bytes>, trace, hoist-free flag *)
+    (* args: AST wire, template name, environment wire[, more environment].  reply: ok, OK:<bytes> | ERR:<line>:<col>:<bytes>, trace, hoist-free flag *)
     match parse_all (arg 0 a), parse_all (arg 2 a) with
     | Some x, Some ev => match dfile x with
-                         | Some fl => frag_run (isf f "frag_denote") fl (arg 1 a) (denv ev)
+                         | Some fl => frag_run (isf f "frag_denote") fl (arg 1 a)
+                                        (match parse_all (arg 3 a) with Some ev2 => denv ev2 | None => [] end ++ denv ev)
                          | None => [bs "decode-ast"] end
     | _, _ => [bs "decode-sexp"] end
   else if isf f "gen" then
